@@ -35,6 +35,11 @@ def _plan(tier):
     for i, (sv, strat) in enumerate(combos):
         for cfg in cfgs if tier == "thorough" else [cfgs[i % 2]]:
             plan.append(dict(cfg=cfg, solver=sv, strategy=strat, initc=(i % 2 == 0), mode="save_at", n=n))
+    # several checkpoints inside one accepted step (dt0 >> spacing, no clipping): the scale used and reported at every
+    # checkpoint of the step must be the one of the step that steps over them
+    cfgD = l0.make_config("dense", "flat", "I_7_8", False, 4, max_att=8)
+    plan.append(dict(cfg=cfgD, solver="dynamic", strategy="filter", initc=False, mode="save_at", n=n))
+    plan.append(dict(cfg=cfgD, solver="dynamic_relin" if tier == "thorough" else "mle", strategy="fixedpoint", initc=False, mode="save_at", n=n))
     for sv in ("mle", "mle_nocorr", "dynamic", "solver"):
         plan.append(dict(cfg=l1common.grid_cfg(l1common.GRIDS["nonuniform"], "nonuniform"), solver=sv, strategy="fixedinterval", initc=(sv == "mle"), mode="fixed_grid", n=1,
                          offgrid=(l0.u(F(5, 8)),)))
